@@ -63,6 +63,24 @@ impl Partition {
             }
         }
 
+        // Under no-wait confirmation a batch handed to the persister task is, until it is written,
+        // neither in the buffer nor in the file: never return messages from beyond such a hole.
+        let contiguous = messages
+            .windows(2)
+            .position(|pair| pair[1].offset != pair[0].offset + 1)
+            .map_or(messages.len(), |index| index + 1);
+        messages.truncate(contiguous);
+        if let Some(first_offset) = messages.first().map(|message| message.offset) {
+            if first_offset > self.segments[0].start_offset
+                && self
+                    .get_messages_by_offset(first_offset - 1, 1)
+                    .await?
+                    .is_empty()
+            {
+                return Ok(Vec::new());
+            }
+        }
+
         Ok(messages)
     }
 
